@@ -54,18 +54,64 @@ def run(ctx):
     ctx.units["conjure_codegen bodies"] = len(c.bodies)
     reserved = c.doc.get("reserved_words") or {}
     # ---------------- R3.1
+    def all_consts(dct):
+        """string constants and referenced const items anywhere in a body dict (statements, call arguments, promoted bodies)"""
+        strs, items = set(), set()
+
+        def walk(o):
+            if isinstance(o, dict):
+                cst = o.get("c")
+                if isinstance(cst, dict):
+                    if isinstance(cst.get("str"), str):
+                        strs.add(cst["str"])
+                    for k_ in ("item", "static"):
+                        if isinstance(cst.get(k_), str):
+                            items.add(cst[k_])
+                for v in o.values():
+                    walk(v)
+            elif isinstance(o, list):
+                for v in o:
+                    walk(v)
+        walk(dct.get("blocks"))
+        walk(dct.get("promoted"))
+        return strs, items
+    const_bodies = {x.path: x for x in c.bodies if x.kind in ("const", "static")}
+
+    def compared_strings(b, depth=0, seen=None):
+        """strings the function's input can be compared with: string-equality constants of the function, its closures and
+        private helpers, plus the string tables (const arrays / slices of &str) they reference"""
+        seen = seen if seen is not None else set()
+        if b.id in seen or depth > 3:
+            return set()
+        seen.add(b.id)
+        out = set()
+        for x in [b] + c.closures_of(b):
+            for bb, t in x.calls():
+                if t["call"]["def"].startswith("core::cmp::PartialEq"):
+                    se = dt.str_eq_const(x, t)
+                    if se:
+                        out.add(se[1])
+                cb = c.body(t["call"].get("id")) if t["call"].get("local") else None
+                if cb is not None and cb.kind in ("fn", "assoc_fn") and cb.d.get("vis") != "pub":
+                    out |= compared_strings(cb, depth + 1, seen)
+            _, items = all_consts(x.d)
+            for it in items:
+                cb = const_bodies.get(it)
+                if cb is not None and "str" in tystr(cb.local_ty(0)) and ("slice" in str(cb.local_ty(0)) or "array" in str(cb.local_ty(0))):
+                    out |= all_consts(cb.d)[0]
+        return out
     cands = []
     for b in c.bodies:
         if not b.id.startswith("conjure_codegen::context::") or b.kind != "assoc_fn":
             continue
-        consts = set()
-        for bb, t in b.calls():
-            if t["call"]["def"].startswith("core::cmp::PartialEq"):
-                se = dt.str_eq_const(b, t)
-                if se:
-                    consts.add(se[1])
+        consts = compared_strings(b)
         if len(consts) >= 20:
             cands.append((b, consts))
+    # keep the innermost: a function that only reaches the table through another candidate is a user, not the escaper
+    if len(cands) > 1:
+        ids = {b.id for b, _ in cands}
+        inner = [(b, k) for b, k in cands if not any(t["call"].get("id") in ids and t["call"].get("id") != b.id for x in [b] + c.closures_of(b) for _, t in x.calls())]
+        cands = inner or cands
     if len(cands) != 1:
         ctx.violation("R3.1", "conjure_codegen", "anchor|escape-table", f"expected one identifier-escaping function (a string match over >= 20 keywords), found {len(cands)}")
     else:
@@ -97,25 +143,35 @@ def run(ctx):
             if cs == {"Self"}:
                 camel.append(x)
     ctx.check(len(camel) == 1, "R3.1", "conjure_codegen", "escape|Self", f"the type-name escaper must escape exactly `Self` (found {len(camel)} such functions)", instance="type names: `Self` escaped")
-    # ---------------- R3.2
+    # ---------------- R3.2 explicit panic inventory of the generator
+    # unwrap / expect / panic!/unreachable! calls in conjure_codegen outside the generated IR types.  The inventory
+    # (spec/codegen_panics.json) gives each site's reason; what is enforced is the TOTAL per kind, so moving a site into a
+    # helper does not alarm while an additional way for generation to panic does.  Index expressions and overflow
+    # assertions are listed in the evidence but not enforced: static analysis cannot tell an infallible `map[key]` or a
+    # debug-only `+` from a reachable one, and a rule that fires on every such edit would be a false alarm in waiting.
     spec = json.load(open(os.path.join(core.VERIF, "spec", "codegen_panics.json")))
-    allowed = {(s["function"], s["kind"]): s for s in spec["sites"]}
     from collections import Counter
-    cnt = Counter()
-    first = {}
+    EXPLICIT = lambda k: k.startswith(("Result::", "Option::", "core::panicking", "std::rt::begin_panic")) or k in ("panic_fmt", "unreachable_display", "panic_display")
+    allowed_tot = Counter()
+    for s_ in spec["sites"]:
+        if EXPLICIT(s_["kind"]):
+            allowed_tot[s_["kind"]] += s_["count"]
+    cnt, where_, soft = Counter(), {}, Counter()
     for b in c.bodies:
-        if "::types::" in b.id:
+        if "::types::" in b.id or b.id.startswith("conjure_codegen::example_types"):
             continue
         for ln, what, x in c06.panic_sites(b):
-            k = (b.path.split("::{closure")[0], what)
-            cnt[k] += 1
-            first.setdefault(k, b.loc(ln))
-    for k, n in sorted(cnt.items()):
-        a = allowed.get(k)
-        ok = a is not None and n <= a["count"]
-        ctx.check(ok, "R3.2", first[k], f"{k[0]}|{k[1]}", f"{k[0]}: {n} `{k[1]}` site(s); the reasoned inventory allows {a['count'] if a else 0}: a new way for generation to panic instead of reporting success or an error",
-                  instance=f"{k[0]}: {n} x {k[1]} ({(a or {}).get('reason', '')[:70]})", nontrivial=False)
-    ctx.floor("R3.2", "panic sites inventoried", sum(cnt.values()), 40)
+            if EXPLICIT(what):
+                cnt[what] += 1
+                where_.setdefault(what, []).append(f"{b.path.split('::{closure')[0].split('::', 1)[-1]}:{ln}")
+            else:
+                soft[what] += 1
+    for k in sorted(set(cnt) | set(allowed_tot)):
+        ctx.check(cnt[k] <= allowed_tot[k], "R3.2", "conjure_codegen", f"explicit-panics|{k}",
+                  f"conjure_codegen holds {cnt[k]} `{k}` sites, the reasoned inventory accounts for {allowed_tot[k]}: a new way for generation to panic instead of reporting success or an error (sites: {where_.get(k, [])})",
+                  instance=f"{cnt[k]} x {k} (inventory: {allowed_tot[k]})", nontrivial=False)
+    ctx.note("R3.2 not enforced (listed only): " + ", ".join(f"{v} x {k}" for k, v in sorted(soft.items())))
+    ctx.floor("R3.2", "explicit panic sites inventoried", sum(cnt.values()), 4)
     # input-dependent arithmetic on sizes must be checked
     hs = [b for b in c.bodies if b.id.startswith("conjure_codegen::human_size::") and b.kind == "fn"]
     for b in hs:
@@ -247,6 +303,9 @@ def run(ctx):
             for q in fn["quotes"]:
                 txt = q["text"].replace(" ", "")
                 preds = reach(set(_re.findall(r"(\w+)\s*\(", " ".join(q["conds"]))))
+                if not q["conds"]:
+                    # no syntactic condition (early return / helper): the predicates the emitting function itself consults
+                    preds = reach({fn["name"]}) - {x for x in reach({fn["name"]}) if x.endswith("::" + fn["name"])}
                 if _re.search(r"let(mut)?#safe_params=", txt) or "SafeParams::new" in txt:
                     bind.append((fn, q, preds))
                 elif "#safe_params." in txt:
